@@ -1650,6 +1650,20 @@ func (g *gen) injectLate() {
 				}
 			}
 		}
+		// a union whose members are identityrefs to two of the equal-named
+		// identities (they differ only in the object their base is), written in
+		// the last holder directly or through a typedef
+		if len(holders) >= 2 && t.Chance(1, 2) {
+			first, last := holders[0], holders[len(holders)-1]
+			a, b := Ref{Mod: first.Name, Name: name}, Ref{Mod: last.Name, Name: name}
+			u := &Type{Ref: Ref{Mod: "", Name: "union"}, Union: []*Type{{Ref: Ref{Mod: "", Name: "identityref"}, Base: &a}, {Ref: Ref{Mod: "", Name: "identityref"}, Base: &b}}}
+			if t.Chance(1, 2) {
+				td := &Typedef{Name: g.id("t"), Type: u}
+				last.Typedefs = append(last.Typedefs, td)
+				u = &Type{Ref: Ref{Mod: last.Name, Name: td.Name}}
+			}
+			last.Body = append(last.Body, &Node{Kind: KLeaf, Name: g.id("l"), Type: u})
+		}
 	}
 }
 
